@@ -366,6 +366,18 @@ def rewrite_be_bytes(text, log, where):
     return text
 
 
+R6C_PAT = re.compile(r"((?:self\.)?\w+(?:\.\w+)*)\[\s*([^\[\]]+?)\s*\.\.\s*([^\[\]=][^\[\]]*?)\s*\]\.to_vec\(\)")
+
+
+def rewrite_subvec(text, log, where):
+    """R6c (`@@ set subvec stub`): PATH[A..B].to_vec() -> verif_subvec(&PATH, A, B); A, B, PATH are kept token for token; the stub
+    requires A <= B <= PATH.len(), which is the slice expression's panic condition"""
+    text, n = R6C_PAT.subn(r"verif_subvec(&\1, \2, \3)", text)
+    for _ in range(n):
+        log.append(("R6c", where, "PATH[A..B].to_vec()"))
+    return text
+
+
 def rewrite_quals(text, log, where):
     """R1: const fn -> fn ; pub(crate)/pub(super) -> pub   (item header only)"""
     toks = lex(text)
@@ -1326,6 +1338,8 @@ def process_fn(u, fnpath, text, log, origin, canary=None):
     text = rewrite_macros(text, log, fnpath, settings)
     text = rewrite_be_bytes(text, log, fnpath)
     text = rewrite_splice(text, log, fnpath)
+    if settings.get("subvec") == "stub":
+        text = rewrite_subvec(text, log, fnpath)
     if settings.get("mapcollect") == "loop":
         text = desugar_map_collect(text, log, fnpath)
         text = desugar_chunks_map_collect(text, log, fnpath)
